@@ -322,6 +322,21 @@ func GenRoute(t *rapid.T, w *world.World, denom string, opt RouteOpt) Route {
 	return r
 }
 
+// CrossedTokenRoute is a Hyperlane route that names the collateral token of ANOTHER denomination
+// than the one transferred: the one parameter of a route that decides which coin leaves the
+// orbiter account. Such a transfer must be refused; if it were accepted the outgoing leg would be
+// paid out of whatever the orbiter account holds in the token's own denomination.
+func CrossedTokenRoute(t *rapid.T, w *world.World, label, denom string) (Route, string) {
+	var others []string
+	for _, d := range world.HypDenoms {
+		if d != denom {
+			others = append(others, d)
+		}
+	}
+	other := pick(t, label+"/tokdenom", others)
+	return Route{Kind: "hyp", TokenID: append([]byte{}, w.HypToken[other]...), Domain: pick(t, label+"/domain", world.HypDomains), Recipient: Bytes32(t, label+"/rcpt")}, other
+}
+
 // ---------------------------------------------------------------------------------------------
 // Transfers
 
